@@ -148,6 +148,8 @@ APPEND_ENS = [
     "exists(self.get_node_iterator(), lambda m: m is pointer)",
     "self.parent_of(pointer) is endpoint",
     "forall(self.get_node_iterator(), lambda m: m is pointer or exists(old(self.get_node_iterator()), lambda n: n is m))",
+    # frame: no other graph changes
+    "forall_obj(CircuitGraphBranch, lambda g: g is self or seq_is(g.get_node_iterator(), old(g.get_node_iterator())))",
 ]
 contract("CircuitGraphBranch.append_pointer_to", params=dict(self=GB, endpoint=REF("GraphNode"), pointer=NODE), returns=GB, verify=False,
          modifies=["graph"], requires=["forall(self.get_node_iterator(), lambda n: n is not pointer)"], ensures=APPEND_ENS)
@@ -170,6 +172,8 @@ contract("CircuitGraphBranch.add_to_graph", params=dict(graph=GB, operation=OP),
              "forall(graph.get_node_iterator(), lambda m: m.operation is operation or exists(old(graph.get_node_iterator()), lambda n: n is m))",
              # no other operation's relation is touched
              "forall_obj(ICircuitOperation, lambda o: o is operation or o.relation_link is old(o.relation_link))",
+             # no other graph is touched
+             "forall_obj(CircuitGraphBranch, lambda g: g is graph or seq_is(g.get_node_iterator(), old(g.get_node_iterator())))",
              # an operation added WITH a relation to an operation of this circuit hangs below it and keeps its link
              f"implies({HAD} and {RELNODE} is not None, operation.relation_link is old(operation.relation_link) and "
              f"exists(graph.get_node_iterator(), lambda m: m.operation is operation and graph.parent_of(m) is {RELNODE}))",
